@@ -68,7 +68,9 @@ class ExprMixin(object):
                 flags = [s.heap[(a.id, k)][0] for k in s.heap[(a.id, '__keys__')]]
                 yield from self.fork(s, z3.Or(*flags) if flags else z3.BoolVal(False), label)
                 continue
-            yield from self.fork(s, truthy(self.deref_list(a, s)), label)
+            hook = self.spec.hints.get('truthy')
+            t = hook(self, a, s) if hook is not None else None
+            yield from self.fork(s, t if t is not None else truthy(self.deref_list(a, s)), label)
 
     # ---------------------------------------------------------------- dispatch
     def ev(self, n, st):
